@@ -129,6 +129,28 @@ func handleScan(db *NoKV.DB, req *pb.ScanRequest) (*pb.ScanResponse, error) {
 	resp := &pb.ScanResponse{}
 	iter.Rewind()
 	reader := percolator.NewReader(db)
+	inRange := func(key []byte) bool {
+		if len(startKey) == 0 {
+			return true
+		}
+		cmp := bytes.Compare(key, startKey)
+		return cmp > 0 || (cmp == 0 && includeStart)
+	}
+	// A key that was prewritten but never committed or rolled back has a lock and no write
+	// record. The lock column sorts before the write column, so its keys are met first:
+	// remember the ones inside the range and check them in key order along with the write
+	// records, so that such a lock blocks the scan exactly like a lock on a key that has one.
+	var lockedKeys [][]byte
+	blockedBy := func(key []byte) (*pb.KeyError, error) {
+		lock, err := reader.GetLock(key)
+		if err != nil {
+			return nil, err
+		}
+		if lock != nil && readTs >= lock.Ts {
+			return lockedError(key, lock), nil
+		}
+		return nil, nil
+	}
 	for iter.Valid() && len(resp.Kvs) < limit {
 		item := iter.Item()
 		if item == nil {
@@ -140,18 +162,36 @@ func handleScan(db *NoKV.DB, req *pb.ScanRequest) (*pb.ScanResponse, error) {
 			iter.Next()
 			continue
 		}
+		if entry.CF == kv.CFLock {
+			if inRange(entry.Key) && (len(lockedKeys) == 0 || !bytes.Equal(lockedKeys[len(lockedKeys)-1], entry.Key)) {
+				lockedKeys = append(lockedKeys, kv.SafeCopy(nil, entry.Key))
+			}
+			iter.Next()
+			continue
+		}
 		if entry.CF != kv.CFWrite {
 			iter.Next()
 			continue
 		}
 		key := kv.SafeCopy(nil, entry.Key)
 		if !started {
-			cmp := bytes.Compare(key, startKey)
-			if cmp < 0 || (cmp == 0 && !includeStart) {
+			if !inRange(key) {
 				advanceToNextUserKey(iter, key)
 				continue
 			}
 			started = true
+		}
+		// locks on keys without a write record that sort before this key
+		for len(lockedKeys) > 0 && bytes.Compare(lockedKeys[0], key) < 0 {
+			keyErr, err := blockedBy(lockedKeys[0])
+			if err != nil {
+				return nil, err
+			}
+			if keyErr != nil {
+				resp.Error = keyErr
+				return resp, nil
+			}
+			lockedKeys = lockedKeys[1:]
 		}
 		lock, err := reader.GetLock(key)
 		if err != nil {
@@ -172,6 +212,19 @@ func handleScan(db *NoKV.DB, req *pb.ScanRequest) (*pb.ScanResponse, error) {
 				Value:   value,
 				Version: readTs,
 			})
+		}
+	}
+	if resp.Error == nil && len(resp.Kvs) < limit {
+		// The range was exhausted: every remaining locked key lies inside it.
+		for _, key := range lockedKeys {
+			keyErr, err := blockedBy(key)
+			if err != nil {
+				return nil, err
+			}
+			if keyErr != nil {
+				resp.Error = keyErr
+				break
+			}
 		}
 	}
 	return resp, nil
